@@ -372,6 +372,61 @@ def _replace(term, what, by):
     return term
 
 
+def _dense_pair_index(fn, chk, a1, a2) -> bool:
+    """the loop-free form: pairs addressed as cells X * stride + Y of a dense grid, counted with np.unique / np.bincount.  Two pairs share a cell
+    exactly when the un-multiplied component can reach the stride, so the stride must be max(Y) + 1 for the component Y that is added."""
+    from ..terms import pattern, unify
+    m = fn.module
+    paths = run_paths(fn, None, None, max_forks=2)
+    if not paths or len(paths) != 1 or paths[0][1].unknown is not None or paths[0][1].returned is None:
+        return False
+    res = paths[0][1]
+    # widening casts do not change values
+    def strip_cast(t):
+        if isinstance(t, tuple):
+            t = tuple(strip_cast(x) for x in t)
+            if len(t) == 4 and t[0] == 'call' and t[1][0] == 'attr' and t[1][2] == 'astype' and len(t[2]) == 1 and t[2][0] in (('lib', 'numpy.int64'), ('str', 'int64'), ('name', 'int'), ('lib', 'numpy.int32')):
+                return t[1][1]
+            if len(t) == 4 and t[0] == 'call' and t[1] == ('name', 'int') and len(t[2]) == 1:
+                return t[2][0]
+            if len(t) == 4 and t[0] == 'call' and t[1] in (('lib', 'numpy.asarray'), ('lib', 'numpy.array'), ('lib', 'numpy.ascontiguousarray')) and len(t[2]) == 1 and all(k[0] in ('dtype', 'copy') for k in t[3]):
+                return t[2][0]
+        return t
+    rt = strip_cast(term_of(fn, res.returned, inline=False))
+    K = None
+    for src in ('numpy.max(numpy.unique(K, return_counts=True)[1]) / N', 'numpy.unique(K, return_counts=True)[1].max() / N', 'numpy.max(numpy.bincount(K)) / N', 'numpy.bincount(K).max() / N'):
+        b = unify(pattern(m, src, ['K', 'N']), rt)
+        if b is not None and b['N'] in (expected_term(m, f'len({a1})'), expected_term(m, f'len({a2})')):
+            K = b['K']
+    if K is None:
+        return False
+    A1, A2 = ('name', a1), ('name', a2)
+    site = fn.site(res.returned) if hasattr(res.returned, 'lineno') else fn.site()
+    stride = added = mult = None
+    if K[0] == '+' and len(K[1]) == 2:
+        for prod, other in (K[1], K[1][::-1]):
+            if prod[0] == '*' and len(prod[1]) == 2 and other in (A1, A2):
+                for arr, fac in (prod[1], prod[1][::-1]):
+                    if arr in (A1, A2) and arr != other:
+                        mult, stride, added = arr, fac, other
+    if stride is None:
+        chk.unsure('C05.5c', 'R9', site, show(K)[:140], 'the cell index of a pair is not of the form X * stride + Y over the two columns')
+        return True
+    def max_plus_one(arr):
+        n = arr[1]
+        return [expected_term(m, f'{n}.max() + 1'), expected_term(m, f'numpy.max({n}) + 1'), expected_term(m, f'max({n}) + 1')]
+    chk.ok('C05.5a', 'R9', site, show(K)[:120], 'every row is counted once in the cell of its own (a[i], b[i]) pair')
+    chk.ok('C05.5b', 'R15', site, show(rt)[:120], 'score = largest cell / number of rows')
+    if stride in max_plus_one(added):
+        chk.ok('C05.5c', 'R9', site, f'{show(K)[:100]} with stride {show(stride)[:40]}', 'the stride exceeds every value of the added component: distinct pairs get distinct cells')
+    elif stride in max_plus_one(mult):
+        chk.bad('C05.5c', 'R9', site, f'{show(K)[:100]} with stride {show(stride)[:40]}', f'the stride of the dense pair index is taken from the multiplied column `{mult[1]}` instead of the added column `{added[1]}`: when `{added[1]}` has values >= the stride, '
+                'distinct pairs share a cell and the coverage is over-estimated')
+    else:
+        chk.unsure('C05.5c', 'R9', site, f'{show(K)[:100]} with stride {show(stride)[:40]}', 'whether the stride exceeds every value of the added column is not decided')
+    return True
+
+
 # -- 5 / 6 ----------------------------------------------------------------------------------
 def coverage(repo, chk):
     fn = repo.func(COV, 'max_pair_coverage')
@@ -382,7 +437,8 @@ def coverage(repo, chk):
     incs = [n for n in own_nodes(fn.node) if isinstance(n, ast.AugAssign) and isinstance(n.target, ast.Subscript)]
     rets = returns(fn)
     if len(loops) != 1 or len(incs) != 1 or len(rets) != 1:
-        chk.unsure('C05.5', 'R9', fn.site(), 'pair-frequency loop', 'unexpected structure of max_pair_coverage')
+        if not _dense_pair_index(fn, chk, a1, a2):
+            chk.unsure('C05.5', 'R9', fn.site(), 'pair-frequency loop', 'unexpected structure of max_pair_coverage')
         return
     lp, inc = loops[0], incs[0]
     i = lp.target.id if isinstance(lp.target, ast.Name) else None
